@@ -3,6 +3,7 @@
    The proofs compute with the *generated* trees: a changed arm, a different buffer, a different error, a different
    separator in `fmt` makes one of them fail (the check then reports the K1 link as broken). They do not depend on the
    order of `match` arms, on `if` versus `match`, or on the names of the locals. *)
+From Coq Require Import Permutation.
 Require Import V.Base.MachineInt.
 Require Import V.Model.UriTypes.
 Require Import V.Generated.GenUriTables.
@@ -21,13 +22,11 @@ Definition state_of (n : string) : option pstate :=
   else if String.eqb n "ParamsValue" then Some SValue
   else None.
 
-Definition abs (e : menv) : option (pstate * str * str * str * params) :=
+Definition abs_env (e : menv) : option (pstate * str * str * str * params) :=
   match m_strs e, state_of (m_state e) with
   | [b; media; key], Some st => Some (st, b, media, key, m_params e)
   | _, _ => None
   end.
-
-Definition lift {A} (r : presult A) : gres A := match r with POk a => GOk a | PErr e => GFail e end.
 
 Ltac split_chars :=
   repeat match goal with
@@ -41,13 +40,13 @@ Ltac crunch :=
 
 (* one character: the generated loop body against one unfolding of `loop` *)
 Lemma gen_body_step c r : forall e idx st b media key ps,
-  (forall e' idx' st' b' media' key' ps', abs e' = Some (st', b', media', key', ps') ->
+  (forall e' idx' st' b' media' key' ps', abs_env e' = Some (st', b', media', key', ps') ->
      gloop gen_parser e' idx' r = lift (loop st' b' media' key' ps' idx' r)) ->
-  abs e = Some (st, b, media, key, ps) ->
+  abs_env e = Some (st, b, media, key, ps) ->
   gloop gen_parser e idx (c :: r) = lift (loop st b media key ps idx (c :: r)).
 Proof.
   intros e idx st b media key ps IH Habs.
-  destruct e as [strs mps mst]. unfold abs in Habs. cbn [m_strs m_state m_params] in Habs.
+  destruct e as [strs mps mst]. unfold abs_env in Habs. cbn [m_strs m_state m_params] in Habs.
   destruct strs as [|b0 [|m0 [|k0 [|? ?]]]]; try discriminate.
   unfold state_of in Habs.
   destruct (String.eqb mst "Media") eqn:E1.
@@ -66,11 +65,11 @@ Qed.
 
 (* end of input: the statements after the loop against `finish` *)
 Lemma gen_finish e idx st b media key ps :
-  abs e = Some (st, b, media, key, ps) ->
+  abs_env e = Some (st, b, media, key, ps) ->
   gloop gen_parser e idx [] = lift (loop st b media key ps idx []).
 Proof.
   intros Habs.
-  destruct e as [strs mps mst]. unfold abs in Habs. cbn [m_strs m_state m_params] in Habs.
+  destruct e as [strs mps mst]. unfold abs_env in Habs. cbn [m_strs m_state m_params] in Habs.
   destruct strs as [|b0 [|m0 [|k0 [|? ?]]]]; try discriminate.
   unfold state_of in Habs.
   destruct (String.eqb mst "Media") eqn:E1.
@@ -84,7 +83,7 @@ Proof.
 Qed.
 
 Lemma gen_loop_eq s : forall e idx st b media key ps,
-  abs e = Some (st, b, media, key, ps) ->
+  abs_env e = Some (st, b, media, key, ps) ->
   gloop gen_parser e idx s = lift (loop st b media key ps idx s).
 Proof.
   induction s as [|c r IH]; intros e idx st b media key ps Habs.
@@ -153,16 +152,30 @@ Proof. reflexivity. Qed.
 Theorem gen_display_eq prefix media ord : gdisplay gen_display prefix media ord = Some (print prefix media ord).
 Proof.
   unfold gdisplay, print.
-  assert (R : forall l, map (render [FArg 0; FLit [61]; FArg 1; FLit [124]]) l = map seg l).
-  { intros l. apply map_ext. intros [k v]. unfold render, seg, CH_EQ, CH_BAR. cbn. rewrite ?app_nil_r. reflexivity. }
+  assert (R : forall l, map (render_entry [FArg 0; FLit [61]; FArg 1; FLit [124]]) l = map seg l).
+  { intros l. apply map_ext. intros [k v]. unfold render_entry, seg, CH_EQ, CH_BAR. cbn. rewrite ?app_nil_r. reflexivity. }
   unfold ends_with_colon, CH_COLON, CH_QMARK.
   destruct prefix as [|p0 pr].
-  - destruct ord as [|kv r]; cbn -[removelast app render AERON_PREFIX map List.concat]; [reflexivity|].
+  - destruct ord as [|kv r]; cbn -[removelast app render_entry AERON_PREFIX map List.concat]; [reflexivity|].
     rewrite R. rewrite <- ?app_assoc. reflexivity.
-  - cbn -[removelast app render AERON_PREFIX rev Z.eqb map List.concat].
+  - cbn -[removelast app render_entry AERON_PREFIX rev Z.eqb map List.concat].
     destruct (rev (p0 :: pr)) as [|l ?]; [| destruct (l =? 58)];
-      destruct ord as [|kv r]; cbn -[removelast app render AERON_PREFIX rev Z.eqb map List.concat]; rewrite ?R;
+      destruct ord as [|kv r]; cbn -[removelast app render_entry AERON_PREFIX rev Z.eqb map List.concat]; rewrite ?R;
       rewrite ?app_nil_r, <- ?app_assoc; reflexivity.
+Qed.
+
+(* ---- the round trip, stated on the two translated functions only ------------------------------------------ *)
+
+Lemma gen_roundtrip_from (reparse : forall s u, parse s = POk u -> forall ord, Permutation ord (u_params u) ->
+                            parse (display u ord) = POk (mkUri (u_prefix u) (u_media u) ord)) s u :
+  gparse gen_parser s = GOk u ->
+  forall ord, Permutation ord (u_params u) ->
+    exists x, gdisplay gen_display (u_prefix u) (u_media u) ord = Some x
+              /\ gparse gen_parser x = GOk (mkUri (u_prefix u) (u_media u) ord).
+Proof.
+  intros H ord Hp. apply gen_parse_ok in H. exists (display u ord). split.
+  - apply gen_display_eq.
+  - apply gen_parse_ok. now apply (reparse s).
 Qed.
 
 (* ---- add_session_id -------------------------------------------------------------------------------------- *)
